@@ -556,5 +556,17 @@ Theorem C06_wiring_Strand__measures :
 Proof. exact Proofs.GenAgreeWiring_C06.gen_wiring_Strand__measures. Qed.
 Print Assumptions C06_wiring_Strand__measures.
 
+Theorem C06_wiring_SecondOrderMeasures__cube_measures :
+  wsrc_SecondOrderMeasures__cube_measures = Some (WCall (WGlobal "CubeMeasures") [WSelf "_cube"; WSelf
+      "_dimensions"; WSelf "_slice_idx"] []).
+Proof. exact Proofs.GenAgreeWiring_C06.gen_wiring_SecondOrderMeasures__cube_measures. Qed.
+Print Assumptions C06_wiring_SecondOrderMeasures__cube_measures.
+
+Theorem C06_wiring_StripeMeasures__cube_measures :
+  wsrc_StripeMeasures__cube_measures = Some (WCall (WGlobal "CubeMeasures") [WSelf "_cube"; WSelf
+      "_rows_dimension"; WSelf "_ca_as_0th"; WSelf "_slice_idx"] []).
+Proof. exact Proofs.GenAgreeWiring_C06.gen_wiring_StripeMeasures__cube_measures. Qed.
+Print Assumptions C06_wiring_StripeMeasures__cube_measures.
+
 End Wiring_C06.
 (* ---- WIRING-APPENDIX:END ---- *)
